@@ -3,6 +3,7 @@ package sx
 import (
 	"net"
 	"regexp"
+	"strings"
 )
 
 // ---- sync primitives (model state lives in fields of the real structs) ----
@@ -182,8 +183,52 @@ func init() {
 		id := x.newObj(arr, s)
 		return &SliceVal{Ptr: x.ptrTo(id, 0), Len: x.i64(len(ss)), Cap: x.i64(len(ss))}
 	}
+	// representative: a concrete stand-in for a subject whose symbolic bytes are all known digits
+	representative := func(x *Exec, re *regexp.Regexp, sv *StrVal) (string, bool) {
+		if !sv.Len.IsConst() || (sv.Opaque != nil && !sv.Opaque.IsFalse()) {
+			return "", false
+		}
+		if strings.ContainsAny(re.String(), "0123456789") {
+			return "", false
+		}
+		out := make([]byte, sv.Len.K)
+		for i := range out {
+			b := sv.B[i]
+			switch {
+			case b.IsConst():
+				out[i] = byte(b.K)
+			case b.Lo >= '0' && b.Hi <= '9':
+				out[i] = '7'
+			default:
+				return "", false
+			}
+		}
+		return string(out), true
+	}
+	symSlice := func(x *Exec, s *State, sv *StrVal, idx []int) Value {
+		n := len(idx) / 2
+		arr := &ArrayVal{E: make([]Value, n)}
+		for i := 0; i < n; i++ {
+			if idx[2*i] < 0 {
+				arr.E[i] = x.str("")
+			} else {
+				arr.E[i] = &StrVal{B: sv.B[idx[2*i]:idx[2*i+1]], Len: x.i64(idx[2*i+1] - idx[2*i])}
+			}
+		}
+		id := x.newObj(arr, s)
+		return &SliceVal{Ptr: x.ptrTo(id, 0), Len: x.i64(n), Cap: x.i64(n)}
+	}
 	RegisterIntrinsic("(*regexp.Regexp).FindStringSubmatch", func(x *Exec, s *State, c *CallCtx) Value {
 		subj, ok := x.concreteStr(c.Args[1].(*StrVal))
+		if !ok {
+			if rep, ok2 := representative(x, reOf(x, s, c.Args[0]), c.Args[1].(*StrVal)); ok2 {
+				idx := reOf(x, s, c.Args[0]).FindStringSubmatchIndex(rep)
+				if idx == nil {
+					return &SliceVal{Ptr: x.nilPtr(), Len: x.i64(0), Cap: x.i64(0)}
+				}
+				return symSlice(x, s, c.Args[1].(*StrVal), idx)
+			}
+		}
 		if !ok {
 			sv := c.Args[1].(*StrVal)
 			showDepth = 9
@@ -200,6 +245,18 @@ func init() {
 	RegisterIntrinsic("(*regexp.Regexp).FindAllStringSubmatch", func(x *Exec, s *State, c *CallCtx) Value {
 		subj, ok := x.concreteStr(c.Args[1].(*StrVal))
 		if !ok {
+			if rep, ok2 := representative(x, reOf(x, s, c.Args[0]), c.Args[1].(*StrVal)); ok2 {
+				all := reOf(x, s, c.Args[0]).FindAllStringSubmatchIndex(rep, int(c.Args[2].(*Term).SVal()))
+				if all == nil {
+					return &SliceVal{Ptr: x.nilPtr(), Len: x.i64(0), Cap: x.i64(0)}
+				}
+				arr := &ArrayVal{E: make([]Value, len(all))}
+				for i, idx := range all {
+					arr.E[i] = symSlice(x, s, c.Args[1].(*StrVal), idx)
+				}
+				id := x.newObj(arr, s)
+				return &SliceVal{Ptr: x.ptrTo(id, 0), Len: x.i64(len(all)), Cap: x.i64(len(all))}
+			}
 			x.fail("regexp.FindAllStringSubmatch on a symbolic subject")
 		}
 		n := int(c.Args[2].(*Term).SVal())
